@@ -104,9 +104,10 @@ def check_c17(prop, tier, seed):
                 jobs.append(dict(src=("yaml_file", p), random_steps=300, seed=seed + ln["id"], extras=False))
         for p in corpus_paths:
             small = any(p.endswith(x + "_yaml.yaml") for x in ("deny", "two_layer", "unordered_chain"))
-            if small or (tier != "quick" and not p.endswith("wide_yaml.yaml")):
+            big = p.endswith("wide_yaml.yaml") or p.endswith("big68_yaml.yaml")      # too large to explore exhaustively
+            if small or (tier != "quick" and not big):
                 jobs.append(dict(src=("yaml_file", p), exhaustive=True, foreign=False, extras=False))
-            elif p.endswith("wide_yaml.yaml") or p.endswith("name_clash_yaml.yaml"):
+            elif big or p.endswith("name_clash_yaml.yaml"):
                 jobs.append(dict(src=("yaml_file", p), random_steps=500, seed=seed + 11, extras=False))
         for n in (["tiny", "medium-multi-site"] if tier == "quick" else fmt.corpus.YAML_BENCHMARKS):
             jobs.append(dict(src=("bench_yaml", n), random_steps=400 if tier == "quick" else 1500, seed=seed + 7))
